@@ -48,9 +48,21 @@ func VerifC13Namespaces(h *verifh.H) {
 		exp := pool[h.Choice("exp", len(pool))]
 		var prefix string
 		var err error
-		if h.Choice("via", 2) == 0 {
+		switch via := h.Choice("via", 3); {
+		case via == 0:
 			prefix, err = hub.Store.NamespaceManager.AssertPrefixMappingForExpansion(exp)
-		} else {
+		case via == 2:
+			// the first mention is a READ by full URI (entity lookup, query start point): the
+			// prefix it makes the hub hand out is as permanent as any other
+			_, err = hub.Store.GetEntity(exp+"x", nil, true)
+			if err == nil {
+				var curie string
+				curie, err = hub.Store.GetNamespacedIdentifierFromURI(exp + "x")
+				if err == nil {
+					prefix = curie[:len(curie)-2]
+				}
+			}
+		default:
 			var curie string
 			curie, err = hub.Store.GetNamespacedIdentifier(exp+"x", nil)
 			if err == nil {
